@@ -176,6 +176,10 @@ func checkRoundtrip(c Case) error {
 	if err := same("Parse(Build(x))", got, want); err != nil {
 		return err
 	}
+	if total := len(text); total <= 1<<20 { // kept by the caller while other files are parsed (vk.Hold)
+		held, expect := got, records(c)
+		vk.Hold("the records fasta.Parse returned", func() error { return same("records parsed earlier", held, expect) })
+	}
 	// a reader the caller has already read from (a line of its own in front of the records): parsing starts where the
 	// reader stands
 	ownLine := "#records follow; this line is the caller's own\n"
